@@ -19,7 +19,9 @@ import (
 	"sync"
 	"time"
 
+	"github.com/jackc/pgx/v5/pgtype"
 	wire "github.com/jeroenrinzema/psql-wire"
+	"github.com/jeroenrinzema/psql-wire/pkg/buffer"
 	"github.com/lib/pq/oid"
 
 	"verif/harness/memnet"
@@ -116,6 +118,12 @@ type Config struct {
 	Table     Table             `json:"table"`
 	Retain    bool              `json:"retain,omitempty"`
 	NoParse   bool              `json:"no_parse,omitempty"`
+	// OptSeed != 0 permutes the order in which the options are handed to NewServer.
+	OptSeed int `json:"opt_seed,omitempty"`
+	// CustomCaches: statement and portal caches are supplied through the Statements / Portals options.
+	CustomCaches bool `json:"custom_caches,omitempty"`
+	// ExtendTypes registers an extra type (OID 99999) through the ExtendTypes option.
+	ExtendTypes bool `json:"extend_types,omitempty"`
 }
 
 // ParamObs is what a statement function observed for one Bind parameter.
@@ -298,9 +306,15 @@ func Start(cfg Config) *Env {
 	curEnv = e
 	curMu.Unlock()
 
-	opts := []wire.OptionFn{wire.Logger(quietLogger)}
+	// options are collected as (key, option); cfg.OptSeed != 0 permutes them (the relative order of the
+	// session middlewares is part of their meaning and is kept)
+	type opt struct {
+		mw bool
+		fn wire.OptionFn
+	}
+	opts0 := []opt{{fn: wire.Logger(quietLogger)}}
 	if cfg.SetLimit {
-		opts = append(opts, wire.MessageBufferSize(cfg.Limit))
+		opts0 = append(opts0, opt{fn: wire.MessageBufferSize(cfg.Limit)})
 	}
 	if cfg.HasParams || len(cfg.Params) > 0 {
 		e.UserMap = wire.Parameters{}
@@ -309,27 +323,66 @@ func Start(cfg Config) *Env {
 			e.UserMap[wire.ParameterStatus(k)] = v
 			e.userCopy[k] = v
 		}
-		opts = append(opts, wire.GlobalParameters(e.UserMap))
+		opts0 = append(opts0, opt{fn: wire.GlobalParameters(e.UserMap)})
 	}
 	if cfg.Version != "" {
-		opts = append(opts, wire.Version(cfg.Version))
+		opts0 = append(opts0, opt{fn: wire.Version(cfg.Version)})
 	}
 	switch cfg.TLS {
 	case "empty":
-		opts = append(opts, wire.TLSConfig(&tls.Config{}))
+		opts0 = append(opts0, opt{fn: wire.TLSConfig(&tls.Config{})})
 	case "cert":
-		opts = append(opts, wire.TLSConfig(&tls.Config{Certificates: []tls.Certificate{Cert()}, MinVersion: tls.VersionTLS12}))
+		opts0 = append(opts0, opt{fn: wire.TLSConfig(&tls.Config{Certificates: []tls.Certificate{Cert()}, MinVersion: tls.VersionTLS12})})
 	case "cert13":
-		opts = append(opts, wire.TLSConfig(&tls.Config{Certificates: []tls.Certificate{Cert()}, MinVersion: tls.VersionTLS13}))
+		opts0 = append(opts0, opt{fn: wire.TLSConfig(&tls.Config{Certificates: []tls.Certificate{Cert()}, MinVersion: tls.VersionTLS13})})
 	}
 	if cfg.Auth != nil {
-		opts = append(opts, wire.SessionAuthStrategy(wire.ClearTextPassword(e.validate)))
+		opts0 = append(opts0, opt{fn: wire.SessionAuthStrategy(wire.ClearTextPassword(e.validate))})
 	}
 	for i := range cfg.MWs {
-		opts = append(opts, wire.SessionMiddleware(e.middleware(i)))
+		opts0 = append(opts0, opt{mw: true, fn: wire.SessionMiddleware(e.middleware(i))})
 	}
 	if cfg.Term != nil {
-		opts = append(opts, wire.TerminateConn(e.terminate))
+		opts0 = append(opts0, opt{fn: wire.TerminateConn(e.terminate)})
+	}
+	if cfg.CustomCaches {
+		// user supplied cache factories (thin wrappers around the default caches, implementing the optional closers too)
+		opts0 = append(opts0, opt{fn: wire.Statements(func() wire.StatementCache { return &stmtCache{inner: &wire.DefaultStatementCache{}} })})
+		opts0 = append(opts0, opt{fn: wire.Portals(func() wire.PortalCache { return &portalCache{inner: &wire.DefaultPortalCache{}} })})
+	}
+	if cfg.ExtendTypes {
+		// a user registered type (OID 99999, text codec) must be available on every connection
+		opts0 = append(opts0, opt{fn: wire.ExtendTypes(func(m *pgtype.Map) {
+			m.RegisterType(&pgtype.Type{Name: "verif_custom", OID: 99999, Codec: pgtype.TextCodec{}})
+		})})
+	}
+	if cfg.OptSeed != 0 {
+		// deterministic permutation (xorshift) that keeps the middlewares in registration order
+		x := uint64(cfg.OptSeed)*2654435761 + 1
+		var mws []opt
+		for _, o := range opts0 {
+			if o.mw {
+				mws = append(mws, o)
+			}
+		}
+		for i := len(opts0) - 1; i > 0; i-- {
+			x ^= x << 13
+			x ^= x >> 7
+			x ^= x << 17
+			j := int(x % uint64(i+1))
+			opts0[i], opts0[j] = opts0[j], opts0[i]
+		}
+		k := 0
+		for i := range opts0 {
+			if opts0[i].mw {
+				opts0[i] = mws[k]
+				k++
+			}
+		}
+	}
+	var opts []wire.OptionFn
+	for _, o := range opts0 {
+		opts = append(opts, o.fn)
 	}
 	var parse wire.ParseFn
 	if !cfg.NoParse {
@@ -916,3 +969,28 @@ func SortedKeys[V any](m map[string]V) []string {
 	sort.Strings(ks)
 	return ks
 }
+
+// ---- user supplied caches (thin wrappers) ------------------------------------
+
+type stmtCache struct{ inner *wire.DefaultStatementCache }
+
+func (c *stmtCache) Set(ctx context.Context, name string, fn *wire.PreparedStatement) error {
+	return c.inner.Set(ctx, name, fn)
+}
+func (c *stmtCache) Get(ctx context.Context, name string) (*wire.Statement, error) {
+	return c.inner.Get(ctx, name)
+}
+func (c *stmtCache) Close(ctx context.Context, name string) error { return c.inner.Close(ctx, name) }
+
+type portalCache struct{ inner *wire.DefaultPortalCache }
+
+func (c *portalCache) Bind(ctx context.Context, name string, st *wire.Statement, params []wire.Parameter, columns []wire.FormatCode) error {
+	return c.inner.Bind(ctx, name, st, params, columns)
+}
+func (c *portalCache) Get(ctx context.Context, name string) (*wire.Portal, error) {
+	return c.inner.Get(ctx, name)
+}
+func (c *portalCache) Execute(ctx context.Context, name string, reader *buffer.Reader, writer *buffer.Writer) error {
+	return c.inner.Execute(ctx, name, reader, writer)
+}
+func (c *portalCache) Close(ctx context.Context, name string) error { return c.inner.Close(ctx, name) }
